@@ -327,6 +327,23 @@ theorem psd_product {q L : ℝ} (hq : 0 < q) (hq2 : q ≤ 2) (hL : 0 < L) (T : T
     0 ≤ ∑ i, ∑ j, w i * w j * entry (.product q L) T (List.ofFn (xs i)) (List.ofFn (xs j)) := by
   simpa only [product_is_lpq_pp hq] using C05_psd_holds q q L hq le_rfl hq2 hL T d n xs w
 
+/-- The same for the matrices the regenerated chains of the L2 (`'l2'`) and product (`'l1'`) kernels compute. -/
+theorem gen_laplace_gram_psd {q L : ℝ} (hq : 0 < q) (hq2 : q ≤ 2) (hL : 0 < L) (T : Transform ℝ) {d n : ℕ}
+    (xs : Fin n → Fin d → ℝ) (w : Fin n → ℝ) :
+    0 ≤ ∑ i, ∑ j, w i * w j * KernelOps.genEntry (.laplace q L) T (List.ofFn (xs i)) (List.ofFn (xs j)) := by
+  have e : ∀ a b : List ℝ, KernelOps.genEntry (.laplace q L) T a b = entry (.laplace q L) T a b :=
+    fun a b => gen_pipeline_eq_model (.laplace q L) ⟨hL, hq⟩ T a b (by intro h; cases h)
+  simp only [e]
+  exact psd_laplace hq hq2 hL T xs w
+
+theorem gen_product_gram_psd {q L : ℝ} (hq : 0 < q) (hq2 : q ≤ 2) (hL : 0 < L) (T : Transform ℝ) {d n : ℕ}
+    (xs : Fin n → Fin d → ℝ) (w : Fin n → ℝ) :
+    0 ≤ ∑ i, ∑ j, w i * w j * KernelOps.genEntry (.product q L) T (List.ofFn (xs i)) (List.ofFn (xs j)) := by
+  have e : ∀ a b : List ℝ, KernelOps.genEntry (.product q L) T a b = entry (.product q L) T a b :=
+    fun a b => gen_pipeline_eq_model (.product q L) ⟨hL, hq⟩ T a b (by intro h; cases h)
+  simp only [e]
+  exact psd_product hq hq2 hL T xs w
+
 /-- Memory-light L2 kernel given `M = T·T` with `T` symmetric (what the fit hands it), -/
 theorem psd_light {q L : ℝ} (hq : 0 < q) (hq2 : q ≤ 2) (hL : 0 < L) {d n : ℕ}
     (T : Matrix (Fin d) (Fin d) ℝ) (hT : T.IsSymm) (xs : Fin n → Fin d → ℝ) (w : Fin n → ℝ) :
